@@ -477,6 +477,15 @@ class Interp:
             key = self.attr_key(t, frame)
             if key is None:
                 raise Undecidable(f"store to computed attribute {unparse(t)}")
+            # a property setter the rule asked to inline (listed as "<Class>.<property>")
+            bkey = key.rpartition(".")[0]
+            cls = self.types.get(bkey)
+            if cls and f"{cls}.{t.attr}" in self.inline and self.idx.has_cls(cls):
+                for c in self.idx.mro(cls):
+                    pr = c.properties.get(t.attr)
+                    if pr and "set" in pr:
+                        self.call_function(pr["set"], {"__pos__": [v]}, bkey)
+                        return
             self.store[key] = v
             self.path.trace.append(("set", key, v))
         elif isinstance(t, ast.Subscript) and isinstance(t.slice, ast.Slice):
@@ -669,6 +678,7 @@ class Interp:
                 parts.append(str(v.value))
             else:
                 x = self.eval(v.value, frame)
+                x = self.str_of(x)
                 if isinstance(x, Residual):
                     concrete = False
                     parts.append("{" + x.text + "}")
@@ -676,6 +686,14 @@ class Interp:
                     parts.append(str(x))
         s = "".join(parts)
         return s if concrete else Residual("f'" + s + "'")
+
+    def str_of(self, x):
+        """str() of an abstract object whose class is known and whose __str__ the rule asked to inline: interpret that __str__"""
+        if isinstance(x, Obj) and self.types.get(x.name):
+            cls = self.types[x.name]
+            if f"{cls}.__str__" in self.inline and self.idx.has_method(cls, "__str__"):
+                return self.call_function(self.idx.method(cls, "__str__"), {"__pos__": []}, x.name)
+        return x
 
     def e_FormattedValue(self, e, frame):
         return self.eval(e.value, frame)
@@ -928,6 +946,10 @@ class Interp:
         if recv is None and meth == "type" and len(args) == 1 and not isinstance(args[0], (Residual, Obj)):
             return Residual(type(args[0]).__name__)
         # builtins on concrete values
+        if recv is None and meth == "str" and len(args) == 1 and isinstance(args[0], Obj):
+            sv = self.str_of(args[0])
+            if not isinstance(sv, Obj):
+                return sv
         if recv is None and meth in _BUILTINS and meth not in frame:
             if meth == "isinstance":
                 bt = {"list": list, "int": int, "str": str, "dict": dict, "tuple": tuple, "float": float, "bool": bool}
